@@ -12,7 +12,8 @@ os.makedirs(dst)
 for f in ("patch.diff", "demo.py", "meta.json"):
     shutil.copy(os.path.join(src, f), dst)
 m = json.load(open(os.path.join(dst, "meta.json")))
-m["breaks_property"] = prop
+m["breaks_property"] = prop.rstrip("bcd")
+m["property"] = prop.rstrip("bcd")
 m["confirmed_by_me"] = "demo.py exits 0 on /repo and 1 on a scratch copy with patch.diff applied (tools/try_seed.sh); patch applies cleanly"
 m["check_result"] = status
 m["check_note"] = note
